@@ -193,7 +193,8 @@ class _Boom(Exception):
 def reject_case():
     return st.fixed_dictionaries(
         {
-            "how": st.sampled_from(["ctor_regime", "callback_regime", "velgrad_raises", "bad_fabric", "bad_phase"]),
+            "how": st.sampled_from(["ctor_regime", "callback_regime", "velgrad_raises", "bad_fabric", "bad_phase", "bad_phase_unlisted"]),
+            "bad_phase": st.sampled_from([2, 3, 7, -1, 100]),
             "bad_regime": st.sampled_from([2, 3, 5, -1, 8, 99]),
             "min": hist.mineral_spec(2, 20, regimes=(4, 6)),
             "par": hist.param_spec(),
@@ -243,6 +244,9 @@ def check_rejection(case):
     elif how == "bad_phase":
         mineral.phase = 3
         params = dict(params, phase_assemblage=(3,), phase_fractions=(1.0,))
+    elif how == "bad_phase_unlisted":
+        # invalid phase ordinal that the (valid) assemblage does not list
+        mineral.phase = case.get("bad_phase", 3)
     raised = None
     try:
         if case["bulk"]:
